@@ -8,12 +8,13 @@ states, and prints every input as a program (binding G).  drv_compaction execute
 code; T_Compaction judges every event with the property-level predicates only (binding T).
 """
 import glob, hashlib, json, os
+from concurrent.futures import ThreadPoolExecutor
 from . import lib
 
 MODULE_MC = "MC_Compaction"
 MODULE_T = "T_Compaction"
 DRV = "drv_compaction"
-INVS = ["SegLemma", "SegFinal", "SegBufIndep", "PlanSafe", "Emit"]
+INVS = ["SegLemma", "SegFinal", "SegBufIndep", "PlanSafe", "PlanNoChain", "Emit"]
 STAT_KEYS = ["compact_ok", "compact_refused", "moved_spans", "plans", "plans_nonempty", "plan_model_agrees",
              "plan_chained", "arch", "arch_compacted"]
 
@@ -128,13 +129,21 @@ def model_witness(ctx):
     """The code-shaped model *with* the defect must violate the property-level predicate (this is how a
     finding's model-level witness is regenerated); with Defects = {} the same configs pass (done in mc_and_run)."""
     out = {}
-    for fid, fam, inv, over in (("F18a", "plan", "PlanSafe", {"MaxSeg": 2}), ("F18b", "seq", "SegFinal", {"N": 2, "K": 2})):
+    cases = (("F18a", "plan", "PlanSafe", {"MaxSeg": 2}), ("F18b", "seq", "SegFinal", {"N": 2, "K": 2}),
+             ("F18c", "plan", "PlanNoChain", {"MaxSeg": 4, "States": '{"F"}'}))
+
+    def one(case):
+        fid, fam, inv, over = case
         cfg = mc_cfg(ctx, f"witness_{fid}", Family=f'"{fam}"', Defects='{"%s"}' % fid, **over)
-        r = lib.tlc(ctx, MODULE_MC, cfg, tagged_out={"PROGRAM": ctx.path("ignored.ndjson")}, timeout=300,
+        r = lib.tlc(ctx, MODULE_MC, cfg, tagged_out={"PROGRAM": ctx.path(f"ignored_{fid}.ndjson")}, timeout=300,
                     expect_violation=True, workers=1)
-        out[fid] = inv in r["invariant_violated"]
-        if not out[fid]:
-            raise lib.ToolError(f"model with defect {fid} does not violate {inv}: the model no longer explains the finding")
+        return fid, inv, inv in r["invariant_violated"]
+
+    with ThreadPoolExecutor(max_workers=3) as ex:
+        for fid, inv, hit in ex.map(one, cases):
+            out[fid] = hit
+            if not hit:
+                raise lib.ToolError(f"model with defect {fid} does not violate {inv}: the model no longer explains the finding")
     ctx.cov["model_with_defect_violates_property"] = out
 
 
@@ -211,22 +220,21 @@ def selftest(ctx, trace, kd):
                  and len(set(e["obs"]["units"])) == len(e["obs"]["units"]) and min(e["obs"]["units"]) >= 0)
     e["obs"]["units"][0], e["obs"]["units"][1] = e["obs"]["units"][1], e["obs"]["units"][0]
     la = list(lines); la[ia] = json.dumps(e, separators=(",", ":"))
-    va = lib.tlc_trace(ctx, MODULE_T, cfg, write("selftest_a1.ndjson", la))
     # (a2) the reported saving off by one byte
     ib, e = find(lambda e: e["op"] == "compact" and e["res"].get("ok") and e["res"]["saved"] > 0)
     e["res"]["saved"] += 1
     lb = list(lines); lb[ib] = json.dumps(e, separators=(",", ":"))
-    vb = lib.tlc_trace(ctx, MODULE_T, cfg, write("selftest_a2.ndjson", lb))
     # (a3) a plan whose last move is shifted one byte down (onto its predecessor / onto used bytes)
     ic, e = find(lambda e: e["op"] == "plan" and len(e["res"].get("moves", [])) >= 2)
     e["res"]["moves"][-1][3] -= 1
     lc = list(lines); lc[ic] = json.dumps(e, separators=(",", ":"))
-    vc = lib.tlc_trace(ctx, MODULE_T, cfg, write("selftest_a3.ndjson", lc))
     # (b) drop one event inside a run
     idx = next(i for i, l in enumerate(lines) if i > 20 and not lib.is_new(l) and i + 1 < len(lines) and not lib.is_new(lines[i + 1])
                and (i + 2) not in bad)
     ld = list(lines); del ld[idx]
-    vd = lib.tlc_trace(ctx, MODULE_T, cfg, write("selftest_b.ndjson", ld))
+    files = [write("selftest_a1.ndjson", la), write("selftest_a2.ndjson", lb), write("selftest_a3.ndjson", lc), write("selftest_b.ndjson", ld)]
+    with ThreadPoolExecutor(max_workers=4) as ex:
+        va, vb, vc, vd = list(ex.map(lambda f: lib.tlc_trace(ctx, MODULE_T, cfg, f), files))
     b = set(base["violations"])
     res = {"corrupt_file_projection_flagged": (ia + 1) in va["violations"] and (ia + 1) not in b,
            "corrupt_bytes_saved_flagged": (ib + 1) in vb["violations"] and (ib + 1) not in b,
@@ -245,7 +253,7 @@ def run(ctx):
     totals, seen = {}, set()
     if ctx.quick:
         plan = [("seq", dict(Family='"seq"', N=6, K=3, Bufs="{1, 2, 3}", Geo=0)),
-                ("set", dict(Family='"set"', N=9, Bufs="{1, 2, 3}", Geo=1)),
+                ("set", dict(Family='"set"', N=8, Bufs="{1, 2, 3}", Geo=1)),
                 ("plan", dict(Family='"plan"', MaxSeg=4, MaxUsed=5, SegSize=4))]
         nrand, narch = 900, 40
     else:
@@ -296,6 +304,13 @@ def run(ctx):
         if not totals.get(k):
             raise lib.ToolError(f"vacuous run: no event of class {k}")
     ctx.cov["event_classes"] = totals
+    # F18c is outside the statement's three conditions: reported as a known finding while it is listed, never a violation
+    if totals.get("plan_chained"):
+        if "F18c" in kd:
+            lib.note_known(ctx, "F18c", totals["plan_chained"])
+            ctx.cov["deviations_observed"]["F18c"] = totals["plan_chained"]
+        else:
+            ctx.cov["plans_with_a_segment_both_emptied_and_filled"] = totals["plan_chained"]
     ctx.cov["code_shaped_plan_model_agreement"] = f"{totals.get('plan_model_agrees', 0)}/{totals.get('plans', 0)}"
     ctx.cov["traces_validated_against_impl"] = total
     ctx.cov["evaluations"] = total
